@@ -6,7 +6,7 @@ Inductive rtree :=
 | RLeaf (kind : nat) (sp : span) (layout : option (list nat)) (value : list nat)
 | RNode (prod : nat) (sp : span) (layout : option (list nat)) (cs : list rtree).
 
-Inductive rout := ROk (t : rtree) | RErr (p : pos) (exp : list nat) | RPanic (site : nat) | RTimeout.
+Inductive rout := ROk (t : rtree) | RErr (p : pos) (exp : list nat) | RErrNoAction | RPanic (site : nat) | RTimeout.
 
 Definition pos_eqb (a b : pos) : bool :=
   (p_off a =? p_off b) && (p_line a =? p_line b) && (p_col a =? p_col b).
@@ -39,6 +39,7 @@ Definition bout_eqb (inp : list nat) (m : bout) (r : rout) : bool :=
   match m, r with
   | BOk t, ROk t' => btree_eqb inp t t'
   | BErr p ex, RErr p' ex' => pos_eqb p p' && set_eqb ex ex'
+  | BErrNoAction, RErrNoAction => true
   | BPanic n, RPanic n' => n =? n'
   | BOutOfFuel, RTimeout => true
   | _, _ => false
